@@ -207,6 +207,9 @@ func implView(o *Obs) map[string]any {
 	if sent == nil {
 		sent = [][]any{}
 	}
+	if outcome == "dropped" && o.Returned && o.AttachErr == "" {
+		outcome = "welcome" // attached; the WELCOME itself was dropped at a full queue
+	}
 	v["outcome"] = outcome
 	v["sent"] = sent
 	v["why"] = whyOf(o)
@@ -232,6 +235,9 @@ func compare(o *Obs, m *ModelRes) []string {
 	var diffs []string
 	iv, mv := implView(o), modelView(m)
 	for _, k := range []string{"outcome", "reason", "why", "sent", "welcome"} {
+		if k == "welcome" && iv[k] == nil && iv["outcome"] == "welcome" {
+			continue // WELCOME was dropped: its details are only visible through the session
+		}
 		if key(iv[k]) != key(mv[k]) {
 			diffs = append(diffs, fmt.Sprintf("%s: impl %s model %s", k, key(iv[k]), key(mv[k])))
 		}
